@@ -211,6 +211,8 @@ class Gen:
         m.update(ver=ver, shape=shape)
 
     def delete(self, dotted):
+        if self.mods[dotted].get('shadowed'):
+            return self.unshadow(dotted)
         m = self.mods.pop(dotted)
         st = self.stamp()
         if m['kind'] in ('package', 'namespace'):
@@ -223,6 +225,8 @@ class Gen:
                 self.fs('delete', self.base(dotted) + '.pyi', dmt=self.dstamp(st))
 
     def rename(self, dotted, new):
+        if self.mods[dotted].get('shadowed'):
+            return self.unshadow(dotted)
         m = self.mods.pop(dotted)
         st = self.stamp()
         # a rename keeps the file's old mtime: on a real file system that is what happens, and it is
@@ -256,6 +260,8 @@ class Gen:
 
     def to_module(self, dotted):
         m = self.mods[dotted]
+        if m.get('shadowed'):
+            return self.unshadow(dotted)
         st = self.stamp()
         self.fs('delete', self.base(dotted), dmt=self.dstamp(st))
         for k in [k for k in self.mods if k.startswith(dotted + '.')]:
@@ -265,8 +271,34 @@ class Gen:
         self.fs('write', self.path_of(dotted, 'module'), content=src, mt=st, dmt=self.dstamp(st))
         m.update(kind='module', ver=ver, shape=shape)
 
+    def shadow(self, dotted):
+        """`mod/__init__.py` appears while `mod.py` stays where it is: the package wins the
+        resolution from now on; removing the directory later makes the module visible again"""
+        m = self.mods[dotted]
+        if m['kind'] != 'module' or m.get('stub'):
+            return
+        old = dict(m)
+        src, ver, shape = self.source(dotted)
+        st = self.stamp()
+        self.fs('write', self.path_of(dotted, 'package'), content=src, mt=st, dmt=self.dstamp(st))
+        self.fs('utime', self.base(dotted), mt=st, dmt=self.dstamp(st))
+        m.update(kind='package', ver=ver, shape=shape, shadowed=old)
+
+    def unshadow(self, dotted):
+        m = self.mods[dotted]
+        old = m.get('shadowed')
+        if not old:
+            return
+        st = self.stamp()
+        self.fs('delete', self.base(dotted), dmt=self.dstamp(st))
+        for k in [k for k in self.mods if k.startswith(dotted + '.')]:
+            del self.mods[k]
+        self.mods[dotted] = dict(old)
+
     def toggle_init(self, dotted):
         m = self.mods[dotted]
+        if m.get('shadowed'):
+            return self.unshadow(dotted)
         st = self.stamp()
         if m['kind'] == 'package':
             self.fs('delete', self.path_of(dotted, 'package'), dmt=self.dstamp(st))
@@ -329,7 +361,14 @@ class Gen:
         subs = [d for d in self.mods if '.' in d]
         free_top = [n for n in world.TOP + world.PKG + self.lib_names if n not in self.mods]
         r = rng.random()
-        if r < 0.10 and self.mods:
+        shadowed = [d for d in tops if self.mods[d].get('shadowed')]
+        plain = [d for d in tops if self.mods[d]['kind'] == 'module' and not self.mods[d].get('stub')]
+        if r < 0.05 and (shadowed or plain):
+            if shadowed and (not plain or rng.random() < 0.5):
+                self.unshadow(rng.choice(shadowed))
+            else:
+                self.shadow(rng.choice(plain))
+        elif r < 0.10 and self.mods:
             self.burst(rng.choice(list(self.mods)))
         elif r < 0.22 and self.mods:
             self.overwrite(rng.choice(list(self.mods)), same_size=rng.random() < 0.6)
